@@ -85,36 +85,33 @@ Proof.
   destruct Ew as [A [B [C [D E]]]]. inversion H; subst. cbn. repeat split; auto.
 Qed.
 
-Lemma bwrite_acc mrs bufsize s data s1 :
-  good s -> bwrite mrs bufsize s data = (ORet, s1) ->
-  p_file s1 ++ p_wbuf s1 = p_file s ++ p_wbuf s ++ data /\ good s1.
+Lemma bwrite_acc mrs s data s1 :
+  good s -> bwrite mrs s data = (ORet, s1) ->
+  p_file s1 = p_file s ++ data /\ p_wbuf s1 = p_wbuf s /\ good s1.
 Proof.
   intros Hg H. unfold bwrite in H. destruct Hg as [Ha [Hs Hc]]. rewrite Hc in H.
-  match type of H with context [if ?b then _ else _] => destruct b end.
-  - apply flush_acc in H; [|repeat split; assumption].
-    cbn [p_file p_wbuf] in H. destruct H as [A [B C]]. rewrite A, B, app_nil_r. auto.
-  - inversion H; subst. cbn. split; [reflexivity | repeat split; assumption].
+  apply write_all_acc in H; [exact H | repeat split; assumption].
 Qed.
 
-Lemma transfer_acc mrs bufsize chunks : forall s size sz s1,
-  good s -> transfer mrs bufsize s chunks size = (ORet, sz, s1) ->
-  p_file s1 ++ p_wbuf s1 = p_file s ++ p_wbuf s ++ concat chunks /\ good s1.
+Lemma transfer_acc mrs chunks : forall s size sz s1,
+  good s -> transfer mrs s chunks size = (ORet, sz, s1) ->
+  p_file s1 = p_file s ++ concat chunks /\ p_wbuf s1 = p_wbuf s /\ good s1.
 Proof.
   induction chunks as [|ch rest IH]; intros s size sz s1 Hg H; cbn [transfer] in H.
-  - destruct (bwrite mrs bufsize s []) as [r s0] eqn:Eb. inversion H; subst.
+  - destruct (bwrite mrs s []) as [r s0] eqn:Eb. inversion H; subst.
     apply bwrite_acc in Eb; [|exact Hg]. cbn [concat]. exact Eb.
-  - destruct (bwrite mrs bufsize s ch) as [r s0] eqn:Eb. destruct r; try discriminate H.
-    apply bwrite_acc in Eb; [|exact Hg]. destruct Eb as [A B].
-    apply IH in H; [|exact B]. destruct H as [C D]. split; [|exact D].
-    rewrite C. cbn [concat]. rewrite app_assoc, A. rewrite <- !app_assoc. reflexivity.
+  - destruct (bwrite mrs s ch) as [r s0] eqn:Eb. destruct r; try discriminate H.
+    apply bwrite_acc in Eb; [|exact Hg]. destruct Eb as [A [B C]].
+    apply IH in H; [|exact C]. destruct H as [D [E F]]. split; [|split; [congruence | exact F]].
+    rewrite D, A. cbn [concat]. rewrite <- app_assoc. reflexivity.
 Qed.
 
-Lemma transfer_size mrs bufsize chunks : forall s size sz s1,
-  transfer mrs bufsize s chunks size = (ORet, sz, s1) -> sz = size + zlen (concat chunks).
+Lemma transfer_size mrs chunks : forall s size sz s1,
+  transfer mrs s chunks size = (ORet, sz, s1) -> sz = size + zlen (concat chunks).
 Proof.
   induction chunks as [|ch rest IH]; intros s size sz s1 H; cbn [transfer] in H.
-  - destruct (bwrite mrs bufsize s []) as [r s0]. inversion H; subst. cbn. unfold zlen. cbn. lia.
-  - destruct (bwrite mrs bufsize s ch) as [r s0]. destruct r; try discriminate H.
+  - destruct (bwrite mrs s []) as [r s0]. inversion H; subst. cbn. unfold zlen. cbn. lia.
+  - destruct (bwrite mrs s ch) as [r s0]. destruct r; try discriminate H.
     apply IH in H. cbn [concat]. rewrite zlen_app. lia.
 Qed.
 
@@ -153,21 +150,19 @@ Proof.
   apply write_all_wf in Ew; [|exact Hw]. destruct r0; inversion H; subst; exact Ew.
 Qed.
 
-Lemma bwrite_wf mrs bufsize s data r s1 : wf (p_c s) -> bwrite mrs bufsize s data = (r, s1) -> wf (p_c s1).
+Lemma bwrite_wf mrs s data r s1 : wf (p_c s) -> bwrite mrs s data = (r, s1) -> wf (p_c s1).
 Proof.
   intros Hw H. unfold bwrite in H. destruct (f_closed (p_f s)); [inversion H; subst; exact Hw|].
-  match type of H with context [if ?b then _ else _] => destruct b end.
-  - apply flush_wf in H; [exact H | exact Hw].
-  - inversion H; subst. exact Hw.
+  apply write_all_wf in H; [exact H | exact Hw].
 Qed.
 
-Lemma transfer_wf mrs bufsize chunks : forall s size r sz s1,
-  wf (p_c s) -> transfer mrs bufsize s chunks size = (r, sz, s1) -> wf (p_c s1).
+Lemma transfer_wf mrs chunks : forall s size r sz s1,
+  wf (p_c s) -> transfer mrs s chunks size = (r, sz, s1) -> wf (p_c s1).
 Proof.
   induction chunks as [|ch rest IH]; intros s size r sz s1 Hw H; cbn [transfer] in H.
-  - destruct (bwrite mrs bufsize s []) as [r0 s0] eqn:Eb. apply bwrite_wf in Eb; [|exact Hw].
+  - destruct (bwrite mrs s []) as [r0 s0] eqn:Eb. apply bwrite_wf in Eb; [|exact Hw].
     inversion H; subst. exact Eb.
-  - destruct (bwrite mrs bufsize s ch) as [r0 s0] eqn:Eb. apply bwrite_wf in Eb; [|exact Hw].
+  - destruct (bwrite mrs s ch) as [r0 s0] eqn:Eb. apply bwrite_wf in Eb; [|exact Hw].
     destruct r0; try (inversion H; subst; exact Eb). eapply IH; eauto.
 Qed.
 
@@ -181,11 +176,11 @@ Proof.
 Qed.
 
 (* what putfo returned normally with *)
-Lemma putfo_ret_inv mrs bufsize chunks confirm env orp crp srp dest :
-  putfo mrs bufsize chunks confirm env orp crp srp = (ORet, dest) ->
+Lemma putfo_ret_inv mrs chunks confirm env orp crp srp dest :
+  putfo mrs chunks confirm env orp crp srp = (ORet, dest) ->
   exists c1 sz s1 s2,
     wf c1 /\
-    transfer mrs bufsize (mkP (mkF true [] false) c1 0 [] [] env) chunks 0 = (ORet, sz, s1) /\
+    transfer mrs (mkP (mkF true [] false) c1 0 [] [] env) chunks 0 = (ORet, sz, s1) /\
     pclose mrs s1 crp = (ORet, s2) /\ dest = p_file s2 /\
     (confirm = true -> srp = None -> zlen dest = sz).
 Proof.
@@ -194,12 +189,12 @@ Proof.
   apply request_wf in Eo; [|exact wf_init].
   destruct r0; try discriminate H.
   destruct (negb (t0 =? g_CMD_HANDLE)); try discriminate H.
-  destruct (transfer mrs bufsize (mkP (mkF true [] false) c1 0 [] [] env) chunks 0) as [[r1 sz] s1] eqn:Et.
+  destruct (transfer mrs (mkP (mkF true [] false) c1 0 [] [] env) chunks 0) as [[r1 sz] s1] eqn:Et.
   destruct (pclose mrs s1 crp) as [r2 s2] eqn:Ec.
   assert (W2 : wf (p_c s2)).
   { eapply pclose_wf; [|exact Ec]. eapply transfer_wf; [|exact Et]. exact Eo. }
   destruct r1, r2; try discriminate H.
-  exists c1, sz, s1, s2. split; [exact Eo|]. split; [reflexivity|]. split; [reflexivity|].
+  exists c1, sz, s1, s2. split; [exact Eo|]. split; [exact Et|]. split; [exact Ec|].
   destruct confirm.
   - destruct srp as [rp|].
     + destruct (request (p_c s2) rp) as [[[r3 t3] k3] c3]. destruct r3; try discriminate H.
@@ -217,26 +212,26 @@ Lemma init_good c1 env : accepted env -> good (mkP (mkF true [] false) c1 0 [] [
 Proof. intros H. repeat split; assumption. Qed.
 
 (* exact or raise, for a server that accepts every write it is sent *)
-Lemma putfo_exact_if_accepted mrs bufsize chunks confirm env orp crp srp dest :
+Lemma putfo_exact_if_accepted mrs chunks confirm env orp crp srp dest :
   accepted env ->
-  putfo mrs bufsize chunks confirm env orp crp srp = (ORet, dest) -> dest = concat chunks.
+  putfo mrs chunks confirm env orp crp srp = (ORet, dest) -> dest = concat chunks.
 Proof.
   intros Ha H. apply putfo_ret_inv in H as [c1 [sz [s1 [s2 [_ [Et [Ec [-> _]]]]]]]].
-  apply transfer_acc in Et; [|apply init_good, Ha]. destruct Et as [A G].
-  apply pclose_acc in Ec; [|exact G]. rewrite Ec, A. reflexivity.
+  apply transfer_acc in Et; [|apply init_good, Ha]. destruct Et as [A [B G]].
+  apply pclose_acc in Ec; [|exact G]. rewrite Ec, A, B. cbn. rewrite app_nil_r. reflexivity.
 Qed.
 
 (* with confirm=True and an honest stat, a normal return means the remote size is the byte count sent *)
-Lemma putfo_confirm_size mrs bufsize chunks env orp crp dest :
-  putfo mrs bufsize chunks true env orp crp None = (ORet, dest) -> zlen dest = zlen (concat chunks).
+Lemma putfo_confirm_size mrs chunks env orp crp dest :
+  putfo mrs chunks true env orp crp None = (ORet, dest) -> zlen dest = zlen (concat chunks).
 Proof.
   intros H. apply putfo_ret_inv in H as [c1 [sz [s1 [s2 [_ [Et [_ [_ Hs]]]]]]]].
   apply transfer_size in Et. rewrite Hs by reflexivity. lia.
 Qed.
 
 (* hence: a rejected write that leaves the file short is caught by confirm=True *)
-Lemma putfo_confirm_short_raises mrs bufsize chunks env orp crp r dest :
-  putfo mrs bufsize chunks true env orp crp None = (r, dest) ->
+Lemma putfo_confirm_short_raises mrs chunks env orp crp r dest :
+  putfo mrs chunks true env orp crp None = (r, dest) ->
   zlen dest <> zlen (concat chunks) -> r <> ORet.
 Proof. intros H Hne ->. apply putfo_confirm_size in H. contradiction. Qed.
 
@@ -244,29 +239,28 @@ Proof. intros H Hne ->. apply putfo_confirm_size in H. contradiction. Qed.
 Definition ok_rp : reply := (g_CMD_STATUS, g_SFTP_OK).
 Definition handle_rp : reply := (g_CMD_HANDLE, 0).
 
-(* one byte, buffered, flushed by close(); the server rejects the write: putfo(confirm=False)
+(* one byte; the server rejects the write: putfo(confirm=False)
    returns normally and the remote file is empty *)
 Lemma exact_or_raise_refuted_noconfirm :
   exists chunks env dest,
-    putfo g_MAX_REQUEST_SIZE g_DEFAULT_BUFSIZE chunks false env handle_rp ok_rp None = (ORet, dest) /\
+    putfo g_MAX_REQUEST_SIZE chunks false env handle_rp ok_rp None = (ORet, dest) /\
     dest <> concat chunks.
 Proof.
   exists [[1]], [(false, g_SFTP_PERMISSION_DENIED)], []. split; [vm_compute; reflexivity | discriminate].
 Qed.
 
-(* 8192 bytes (written at once, rejected) then 1 byte (written by close() at offset 8192, accepted):
-   the size matches, so putfo(confirm=True) returns normally although the first 8192 bytes are zeros *)
+(* two reads of one byte: the first write is rejected, the second (offset 1) accepted: the size
+   matches, so putfo(confirm=True) returns normally although the first byte is a zero *)
 Lemma exact_or_raise_refuted_confirm :
   exists chunks env dest,
-    putfo g_MAX_REQUEST_SIZE g_DEFAULT_BUFSIZE chunks true env handle_rp ok_rp None = (ORet, dest) /\
+    putfo g_MAX_REQUEST_SIZE chunks true env handle_rp ok_rp None = (ORet, dest) /\
     dest <> concat chunks /\ zlen dest = zlen (concat chunks).
 Proof.
-  exists [repeat 1 8192; [2]], [(false, g_SFTP_FAILURE); (false, g_SFTP_OK)], (repeat 0 8192 ++ [2]).
-  split; [vm_compute; reflexivity | split; [|vm_compute; reflexivity]].
-  intros H. apply (f_equal (fun l => hd 9 l)) in H. vm_compute in H. discriminate H.
+  exists [[1]; [2]], [(false, g_SFTP_FAILURE); (false, g_SFTP_OK)], [0; 2].
+  split; [vm_compute; reflexivity | split; [discriminate | reflexivity]].
 Qed.
 
 (* non-vacuity of the positive theorems: a three-request upload that returns, exactly *)
 Lemma putfo_example :
-  putfo 4 3 [[1; 2; 3; 4; 5; 6; 7; 8; 9]; [10]] true [] handle_rp ok_rp None = (ORet, [1; 2; 3; 4; 5; 6; 7; 8; 9; 10]).
+  putfo 4 [[1; 2; 3; 4; 5; 6; 7; 8; 9]; [10]] true [] handle_rp ok_rp None = (ORet, [1; 2; 3; 4; 5; 6; 7; 8; 9; 10]).
 Proof. vm_compute. reflexivity. Qed.
